@@ -21,7 +21,8 @@ CFG = dict(
                       "transport's read failure and without any trailer, a stream reported a message / a clean end (io.EOF) / a retried call succeeded",
                  "6": "hang: an operation is still pending at a quiescent point after the read loop died although no caller is parked",
                  "7": "a call started after the read loop died did not fail at once (it wrote to the transport or did not return)",
-                 "8": "panic"},
+                 "8": "panic",
+                 "10": "the exact result was due: the call's reply / final envelope / pending messages had been delivered before the read failure, yet the call got the connection error"},
     rule="lock-step in synctest bubbles, real client vs scripted peer: 9 base scenarios (unary ok/status, server-/client-/bidi-stream, "
          "unread stream, unary+stream, 2 unary+stream, 3 streams) x a read failure after EVERY prefix of the response sequence x {writes "
          "fail, writes succeed} x {no caller, a unary caller, a stream opener} parked at the mux.checked yield point and released after "
